@@ -354,6 +354,8 @@ def spec(c: Ctx):
         sf = f if sti == ti else c.forest(sti)
         ch = kids(f, p)
         deep = True if deep is None else deep
+        if not sf:                      # an empty source tree: nothing to add, `before` is not even looked at
+            return ("ok", f, None)
         if any(did_of(x) == did_of(s) for x in ch for s in sf):
             return ("refuse",)
         if deep and sti == ti and any(p in branch_ids(s) for s in sf):
